@@ -735,7 +735,10 @@ func runIsolated(c *engine.Ctx, key, entry string, cs any, dir string) {
 	cmd.Stdout = &stdout
 	cmd.Stderr = &tailBuf{}
 	cmd.Stderr = &stderr
+
+	c.AwaitingChild(true)
 	werr := cmd.Run()
+	c.AwaitingChild(false)
 
 	var ee *exec.ExitError
 
